@@ -161,11 +161,16 @@ def _solve_one(task):
             out["verdict"], out["backend"] = "unsat", pb
             done = True
     if cli and not done:
-        for suffix, text in texts:
-            r = _run_cli([cli, "-t:%d" % int(min(timeout_s, 10.0) * 1000)], text, min(timeout_s, 10.0) + 5)
-            if r == "unsat":
-                out["verdict"], out["backend"] = "unsat", "z3-cli-5.1%s" % suffix
-                done = True
+        # two passes: a short budget on every hypothesis set first (a set that lacks a needed hypothesis must not
+        # burn the whole budget before the full set is tried), then the longer one
+        for budget in (min(timeout_s, 2.5), min(timeout_s, 10.0)):
+            for suffix, text in texts:
+                r = _run_cli([cli, "-t:%d" % int(budget * 1000)], text, budget + 5)
+                if r == "unsat":
+                    out["verdict"], out["backend"] = "unsat", "z3-cli-5.1%s" % suffix
+                    done = True
+                    break
+            if done:
                 break
     for label, opts0, tmo in ([] if done else stages):
         for suffix, text in texts:
